@@ -82,7 +82,7 @@ func c16NA(mask int, where string) *refcfg.NamingAuthority {
 	return n
 }
 
-var c16ItemSets = [][]string{{"Arzt"}, {"Ärztin/Arzt", "Apotheker"}, {"A", "B", "日本"}}
+var c16ItemSets = [][]string{{"Arzt"}, {"Ärztin/Arzt", "Apotheker"}, {"B", "日本", "A"}}
 
 func c16Unit(c *c16Case) (refcfg.Admissions, refcfg.ProfessionInfo) { return c16UnitAt(c, 0) }
 
@@ -95,9 +95,10 @@ func c16UnitAt(c *c16Case, pos int) (refcfg.Admissions, refcfg.ProfessionInfo) {
 	case 1:
 		pi.ProfessionOids = refcfg.Strs(fmt.Sprintf("1.2.276.0.76.4.%d", base))
 	case 2:
-		pi.ProfessionOids = refcfg.Strs(fmt.Sprintf("1.2.276.0.76.4.%d", base), fmt.Sprintf("1.2.276.0.76.4.%d", base+1))
+		// written in descending order: a SEQUENCE OF keeps the order of the configuration
+		pi.ProfessionOids = refcfg.Strs(fmt.Sprintf("1.2.276.0.76.4.%d", base+1), fmt.Sprintf("1.2.276.0.76.4.%d", base))
 	case 3:
-		pi.ProfessionOids = refcfg.Strs(fmt.Sprintf("1.2.276.0.76.4.%d", base), fmt.Sprintf("1.2.276.0.76.4.%d", base+1), fmt.Sprintf("1.2.276.0.76.4.%d", base+2))
+		pi.ProfessionOids = refcfg.Strs(fmt.Sprintf("1.2.276.0.76.4.%d", base+2), fmt.Sprintf("1.2.276.0.76.4.%d", base), fmt.Sprintf("2.999.%d", base+1))
 	}
 	if pos > 0 {
 		items := []string{}
